@@ -36,7 +36,7 @@ for prop in args:
             if os.path.exists(os.path.join(dst, "meta.json")):
                 continue
             jobs.append((prop, num, src))
-with ThreadPoolExecutor(7) as ex:
+with ThreadPoolExecutor(int(os.environ.get("INGEST_JOBS", "7"))) as ex:
     for prop, n, src, res in ex.map(one, jobs):
         print(prop, n, "confirmed" if res["confirmed"] else "REJECTED", {k: res.get(k) for k in ("demo_exit_original", "demo_exit_changed", "tests", "applies")})
         if not res["confirmed"]:
